@@ -15,7 +15,8 @@
        and from then on every response is rejected (C08_rejected_after_expiry, C08_reject). *)
 From Coq Require Import List ZArith Bool.
 From SVC Require Import Base.AMap Base.Res Base.Dec Model.Types Model.Pricing
-  Model.Handlers Model.EndBlock Model.Step Proofs.Inv Proofs.StepSpecs_window.
+  Model.Handlers Model.EndBlock Model.Step Proofs.Inv Proofs.StepSpecs_window
+  Proofs.ReachRun Proofs.TraceLemmas Proofs.GapOrigin Proofs.GapC08.
 Import ListNotations.
 Open Scope Z_scope.
 
@@ -94,3 +95,115 @@ Theorem C08_rejected_after_expiry : forall cfg s dt r q who code out out_valid o
   handle cfg (end_block cfg s dt) (ORespond r who code out out_valid ok) = Err.
 Proof. exact StepSpecs_window.C08_rejected_after_expiry. Qed.
 Print Assumptions C08_rejected_after_expiry.
+
+(* ------------------------------------------------------------------ *)
+(* Over histories (Proofs/GapC08.v): induction over [run] from the step theorems above. *)
+
+(* the window as a trace theorem: from any reachable state in which r is stored, along ANY
+   well-formed history (messages, pauses, kills, updates, EndBlocks in any order):
+   (A) as long as the chain has not passed the expiry height the record is there with the same
+       provider, fee and expiry height; it is pending only if it was, and if it stopped being
+       pending an accepted response to r is in the log;
+   (B) once the chain has passed the expiry height the request and its response are gone and
+       every response to r, by anybody, is rejected and changes nothing -- ever after *)
+Theorem C08_window : forall cfg s ops r q,
+  wf_cfg cfg -> Reach cfg s -> wf_run cfg s ops -> get r (reqs s) = Some q ->
+  let s' := run cfg s ops in
+  (height s' <= r_exp q ->
+     exists q', get r (reqs s') = Some q' /\ r_prov q' = r_prov q /\ r_fee q' = r_fee q
+       /\ r_exp q' = r_exp q /\ (r_active q' = true -> r_active q = true)
+       /\ (r_active q = true -> r_active q' = false -> In (EvRespond r) (log s')))
+  /\ (r_exp q < height s' ->
+        get r (reqs s') = None /\ get r (resps s') = None
+        /\ forall who code out ov ok,
+             handle cfg s' (ORespond r who code out ov ok) = Err
+             /\ step cfg s' (ORespond r who code out ov ok) = (s', RErr)).
+Proof. exact GapC08.C08_window. Qed.
+Print Assumptions C08_window.
+
+(* while pending, the request is inside its window and the designated provider is accepted *)
+Theorem C08_answerable_in_window : forall cfg s ops r q q' code out ov,
+  wf_cfg cfg -> Reach cfg s -> wf_run cfg s ops -> get r (reqs s) = Some q ->
+  get r (reqs (run cfg s ops)) = Some q' -> r_active q' = true ->
+  height (run cfg s ops) <= r_exp q /\ r_prov q' = r_prov q
+  /\ exists s2, handle cfg (run cfg s ops) (ORespond r (r_prov q) code out ov true) = Ok s2.
+Proof. exact GapC08.C08_answerable_in_window. Qed.
+Print Assumptions C08_answerable_in_window.
+
+(* not answered and not expired = still pending *)
+Theorem C08_pending_until_answered : forall cfg s ops r q,
+  wf_cfg cfg -> Reach cfg s -> wf_run cfg s ops -> get r (reqs s) = Some q -> r_active q = true ->
+  height (run cfg s ops) <= r_exp q -> ~ In (EvRespond r) (log (run cfg s ops)) ->
+  exists q', get r (reqs (run cfg s ops)) = Some q' /\ r_active q' = true /\ r_prov q' = r_prov q.
+Proof. exact GapC08.C08_pending_until_answered. Qed.
+Print Assumptions C08_pending_until_answered.
+
+(* the same, anchored at the EndBlock that issues r (at height h = height s, timeout t of the
+   context): the first state in which r can be answered has height h + 1 (no response is possible
+   in the issuing block), the window is heights h+1 .. h+t, in every state of it r is stored,
+   answerable while pending, and after it r is rejected for ever *)
+Theorem C08_window_from_issue : forall cfg s dt r q,
+  wf_cfg cfg -> Reach cfg s -> 0 <= dt -> height s < HEIGHT_BOUND ->
+  get r (reqs s) = None -> get r (reqs (end_block cfg s dt)) = Some q ->
+  let s1 := end_block cfg s dt in
+  Reach cfg s1 /\ r_active q = true /\ rid_height r = height s /\ height s1 = rid_height r + 1
+  /\ (exists rc, get (rid_ctx r)
+                   (ctxs (fold_left (expire_one cfg) (due (expq s) (height s)) s)) = Some rc
+        /\ r_exp q = height s + c_timeout rc /\ 1 <= c_timeout rc <= p_max_timeout cfg)
+  /\ height s1 <= r_exp q
+  /\ forall ops, wf_run cfg s1 ops ->
+       let s' := run cfg s1 ops in
+       (height s' <= r_exp q ->
+          exists q', get r (reqs s') = Some q' /\ r_prov q' = r_prov q /\ r_fee q' = r_fee q
+            /\ r_exp q' = r_exp q
+            /\ (r_active q' = false -> In (EvRespond r) (log s'))
+            /\ (r_active q' = true -> forall code out ov,
+                  exists s2, handle cfg s' (ORespond r (r_prov q) code out ov true) = Ok s2))
+       /\ (r_exp q < height s' ->
+             get r (reqs s') = None /\ get r (resps s') = None
+             /\ forall who code out ov ok,
+                  handle cfg s' (ORespond r who code out ov ok) = Err
+                  /\ step cfg s' (ORespond r who code out ov ok) = (s', RErr)).
+Proof. exact GapC08.C08_window_from_issue. Qed.
+Print Assumptions C08_window_from_issue.
+
+(* at most one accepted response in the whole history of a reachable state; a pending request
+   has none *)
+Theorem C08_once_trace : forall cfg s r,
+  wf_cfg cfg -> Reach cfg s ->
+  (count (is_respond r) (log s) <= 1)%nat
+  /\ (forall q, get r (reqs s) = Some q -> r_active q = true -> ~ In (EvRespond r) (log s)).
+Proof. exact GapC08.C08_once_trace. Qed.
+Print Assumptions C08_once_trace.
+
+(* after an accepted response to r every later response to r is rejected, in EVERY later state *)
+Theorem C08_once_run : forall cfg s1 r who code out ov ok s2 ops,
+  wf_cfg cfg -> Reach cfg s1 -> handle cfg s1 (ORespond r who code out ov ok) = Ok s2 ->
+  wf_run cfg s2 ops ->
+  forall who' code' out' ov' ok',
+    handle cfg (run cfg s2 ops) (ORespond r who' code' out' ov' ok') = Err
+    /\ step cfg (run cfg s2 ops) (ORespond r who' code' out' ov' ok') = (run cfg s2 ops, RErr).
+Proof. exact GapC08.C08_once_run. Qed.
+Print Assumptions C08_once_run.
+
+(* a pending request of a reachable state: issued in an earlier block, not past its expiry
+   height, and its provider's response is accepted *)
+Theorem C08_accept_reach : forall cfg s r q code out ov,
+  wf_cfg cfg -> Reach cfg s -> get r (reqs s) = Some q -> r_active q = true ->
+  rid_height r < height s <= r_exp q
+  /\ exists s', handle cfg s (ORespond r (r_prov q) code out ov true) = Ok s'.
+Proof. exact GapC08.C08_accept_reach. Qed.
+Print Assumptions C08_accept_reach.
+
+(* satisfiable: a concrete reachable history in which a request issued at height 1 with timeout
+   5 is still answerable in block 6 and rejected in blocks 7 and 14 *)
+Theorem C08_window_example :
+  (exists s2, handle BatchEx.BEx.cfg0 (run BatchEx.BEx.cfg0 BatchEx.BEx.s_b (BatchEx.BEx.nblocks 4))
+                (ORespond GapC08.ExW.r3 12 200 1 true true) = Ok s2)
+  /\ handle BatchEx.BEx.cfg0 (run BatchEx.BEx.cfg0 BatchEx.BEx.s_b (BatchEx.BEx.nblocks 5))
+       (ORespond GapC08.ExW.r3 12 200 1 true true) = Err
+  /\ handle BatchEx.BEx.cfg0
+       (run BatchEx.BEx.cfg0 BatchEx.BEx.s_b (BatchEx.BEx.nblocks 5 ++ BatchEx.BEx.nblocks 7))
+       (ORespond GapC08.ExW.r3 12 200 1 true true) = Err.
+Proof. exact GapC08.ExW.window_applies. Qed.
+Print Assumptions C08_window_example.
